@@ -15,7 +15,7 @@ PID = 'C15'
 GENERATORS = [('version2coq.py', 'Gen/VersionGen.v'), ('diff2coq.py', 'Gen/DiffGen.v')]
 EXTRA_CONE = ['Model/StoreIO.v']
 META = {
-    'text': 'Theorems over Gallina definitions regenerated on every run from dawgie.Version by a fail-closed ast translator: <= is the lexicographic order, total/transitive/antisymmetric, the six operators and newer() mutually consistent, for all integer triples (unbounded Z). The build half (which algorithms a (re)load schedules) is proved over the scheduler model and tied to schedule.build/_diff by correspondence on generated engines.',
+    'text': 'Theorems over Gallina definitions regenerated on every run from dawgie.Version by a fail-closed ast translator: <= is the lexicographic order, total/transitive/antisymmetric, the six operators and newer() mutually consistent, for all integer triples (unbounded Z). The build half (which algorithms a (re)load schedules) is proved over the scheduler model and tied to schedule.build/_diff by correspondence on generated engines. Persisted side: shelve.versions() is modelled (Catalogue.versions); util.dissect is proved to invert util.construct on names without a colon (unbounded: every name, parent id and integer version triple), hence every value row whose parent chain resolves is listed with exactly the names and versions it was registered with (C15_persisted_listed); tied to the real shelve back-end by the store correspondence and an oracle from the registered names; the order laws are also evaluated on every class that carries a version (Algorithm, Analyzer, Regression, Value, StateVector).',
     'note': 'Trusted: Coq kernel; version2coq.py translator (validated each run on every pair over a finite domain incl. literals of the source); CPython int comparison; for the build half the hand-written scheduler model + correspondence driver. No axioms (Print Assumptions: closed).',
     'technique': 'Coq proof over source-generated definitions + translator validation sweep + model/implementation correspondence',
 }
